@@ -217,6 +217,54 @@ def run(ctx):
             gfs.lineno,
         )
 
+    # the source that enters the hash is read at the time of the call: every return of get_func_source derives from `inspect.getsource(func)` of this
+    # very call (through line splitting/joining); a value taken from a module-level memo, or a caching decorator, answers with the text that was
+    # current when some *equal-looking* function (same code object, same wrapper) was first seen
+    tainted = set()
+    changed = True
+    while changed:
+        changed = False
+        for a in ast.walk(gfs):
+            tgt, val = None, None
+            if isinstance(a, ast.Assign):
+                tgt, val = a.targets[0], a.value
+            elif isinstance(a, (ast.For, ast.comprehension)):
+                tgt, val = a.target, a.iter
+            if tgt is None:
+                continue
+            if "inspect.getsource(" in src(val) or any(isinstance(x, ast.Name) and x.id in tainted for x in ast.walk(val)):
+                for x in ([tgt] if isinstance(tgt, ast.Name) else list(tgt.elts) if isinstance(tgt, (ast.Tuple, ast.List)) else []):
+                    if isinstance(x, ast.Name) and x.id not in tainted:
+                        tainted.add(x.id)
+                        changed = True
+    params = {a.arg for a in gfs.args.args}
+    locals_ = set()
+    for a in ast.walk(gfs):
+        if isinstance(a, (ast.Assign, ast.For, ast.comprehension)):
+            tg = a.targets[0] if isinstance(a, ast.Assign) else a.target
+            locals_ |= {t.id for t in ([tg] if isinstance(tg, ast.Name) else list(tg.elts) if isinstance(tg, (ast.Tuple, ast.List)) else []) if isinstance(t, ast.Name)}
+    import builtins as _b
+
+    nret5 = 0
+    for r in ast.walk(gfs):
+        if isinstance(r, ast.Return) and r.value is not None:
+            nret5 += 1
+            names = {x.id for x in ast.walk(r.value) if isinstance(x, ast.Name)}
+            foreign = sorted(n for n in names if n not in tainted and n not in params and n not in locals_ and not hasattr(_b, n) and n not in ("inspect", "re"))
+            from_source = bool(names & tainted) or "inspect.getsource(" in src(r.value)
+            r5.check(
+                from_source and not foreign,
+                f"{um.rel}:get_func_source:return-from-getsource",
+                f"get_func_source returns `{src(r.value)[:60]}` (line {r.lineno}), which is not derived from inspect.getsource(func) of this call"
+                + (f" but from the module-level {foreign}" if foreign else "")
+                + ": a memo keyed by anything coarser than the source text (the code object, the wrapper function) keeps returning the first text seen, so editing a task body leaves task.source and task.hash unchanged",
+                um.rel,
+                r.lineno,
+            )
+    r5.check(not gfs.decorator_list, f"{um.rel}:get_func_source:undecorated", f"get_func_source is wrapped by {[src(d) for d in gfs.decorator_list]}: a cache in front of the source lookup serves stale text", um.rel, gfs.lineno)
+    if nret5 == 0:
+        raise AnalysisError("get_func_source has no return", "get_func_source")
+
 
 def _is_task_receiver(mod, fn, recv: str) -> bool:
     """Receiver is a Task object: annotated parameter, or assigned from a registry lookup / named *task*."""
